@@ -103,6 +103,37 @@ static void cmd_parse(int nt, char **t)
 	free(buf); free(b);
 }
 
+/* PM <flags> <depth> <reset 0 only-after-errors | 1 always | 2 never-explicitly> <hex>...   several documents through ONE tokener (len = n+1 each);
+ *   -> = <err> <end> <nonnull> <dump> || <err> ...        PV <hex>: json_tokener_parse_verbose -> = <err> <nonnull> <dump> */
+static void cmd_parse_many(int nt, char **t)
+{
+	int flags = (int)L(t[1]), depth = (int)L(t[2]), rm = (int)L(t[3]), i;
+	struct json_tokener *tok = depth > 0 ? json_tokener_new_ex(depth) : json_tokener_new();
+	if (!tok) { ob_puts(&out, "= notok"); return; }
+	json_tokener_set_flags(tok, flags);
+	for (i = 4; i < nt; i++) {
+		size_t n; unsigned char *b = unhex(t[i], &n); char *buf = exact_copy(b, n + 1); struct json_object *o; enum json_tokener_error e;
+		o = json_tokener_parse_ex(tok, buf, (int)n + 1);
+		e = json_tokener_get_error(tok);
+		if (i > 4) ob_puts(&out, " || ");
+		ob_printf(&out, "%s%d %zu %d ", i == 4 ? "= " : "", (int)e, json_tokener_get_parse_end(tok), o != NULL);
+		if (o || e == json_tokener_success) dump_node(&out, o, 0); else ob_putc(&out, '-');
+		json_object_put(o);
+		if (rm == 1 || (rm == 0 && e != json_tokener_success)) json_tokener_reset(tok);
+		free(buf); free(b);
+	}
+	json_tokener_free(tok);
+}
+static void cmd_parse_verbose(int nt, char **t)
+{
+	size_t n; unsigned char *b = unhex(t[1], &n); char *buf = exact_copy(b, n + 1); enum json_tokener_error e = (enum json_tokener_error)-1; struct json_object *o;
+	(void)nt;
+	o = json_tokener_parse_verbose(buf, &e);
+	ob_printf(&out, "= %d %d ", (int)e, o != NULL);
+	if (o) dump_node(&out, o, 0); else ob_putc(&out, '-');
+	json_object_put(o); free(buf); free(b);
+}
+
 /* PD <flags> <depth> <chunk> <hex>   parse under a depth limit on a small-stack thread, reporting resource peaks.
  *   chunk 0: one call with len = n+1 (text + NUL); chunk k>0: calls of k bytes, then a final 1-byte call with the NUL
  *   -> = <err> <global end> <nonnull> peak=<blocks> stack=<bytes> calls=<n> <dump>
@@ -389,6 +420,15 @@ static int ser_fn(struct json_object *o, struct printbuf *pb, int level, int fla
 /* SS <h> <uid> <custom 0|1>   set_serializer */
 static void cmd_ss(int nt, char **t) { int h = hidx(t[1]); (void)nt; json_object_set_serializer(H[h], L(t[3]) ? ser_fn : NULL, (void *)(intptr_t)L(t[2]), L(t[2]) ? del_cb : NULL); ob_puts(&out, "= ok"); emit_dlog(); }
 
+/* GETN <h> <n>: n times json_object_get; PUTN <h> <n>: n times json_object_put -> = <number of puts that returned 1> first=<index of the first such put | -1> del=.. (many-owner histories) */
+static void cmd_getn(int nt, char **t) { int h = hidx(t[1]); unsigned long n = UL(t[2]), i; (void)nt; for (i = 0; i < n; i++) { json_object_get(H[h]); if (!(i & 0xFFFFFF)) vf_progress++; } ob_puts(&out, "= ok"); }
+static void cmd_putn(int nt, char **t)
+{
+	int h = hidx(t[1]); unsigned long n = UL(t[2]), i, ones = 0; long first = -1; (void)nt;
+	vf_freelog_reset();
+	for (i = 0; i < n; i++) { if (json_object_put(H[h]) == 1) { if (!ones) first = (long)i; ones++; if (ones > 3) break; } if (!(i & 0xFFFFFF)) vf_progress++; }
+	ob_printf(&out, "= %lu first=%ld", ones, first); emit_dlog();
+}
 /* GET <h> <h2> */
 static void cmd_get(int nt, char **t) { int h = hidx(t[1]), h2 = hidx(t[2]); (void)nt; H[h2] = json_object_get(H[h]); Hset[h2] = 1; ob_puts(&out, "= ok"); }
 /* ALIAS <h> <h2>   copy the pointer without taking a reference */
@@ -656,7 +696,7 @@ static void cmd_fdr(int nt, char **t)
 	{ struct obuf tmp = {0}; if (m) dump_node(&tmp, m, 0); ob_printf(&out, "%016" PRIx64 " eq=%d", m ? (uint64_t)tmp.n * 1000003u + crc32_buf((unsigned char *)tmp.b, tmp.n) : 0, json_object_equal(o, m)); free(tmp.b); }
 	json_object_put(m); json_object_put(o); json_tokener_free(tok); free(ex); free(b);
 }
-/* FDF <pathhex> <mode 0 from_file nonexistent | 1 to_file_ext+from_file round trip of handle 0 with flags> [flags] */
+/* FDF <pathhex> <mode 0 from_file nonexistent | 1 to_file_ext+from_file round trip of handle 0 with flags> [flags] [prefill bytes already in the file] [1 = json_object_to_file] */
 static void cmd_fdf(int nt, char **t)
 {
 	char *path = keyarg(t[1]); int mode = (int)L(t[2]); long o0 = vf_open_calls, c0 = vf_close_calls; const char *le;
@@ -667,9 +707,24 @@ static void cmd_fdf(int nt, char **t)
 		ob_printf(&out, "= obj=%d lasterr=%d opens=%ld closes=%ld", o != NULL, le != NULL, vf_open_calls - o0, vf_close_calls - c0);
 		json_object_put(o);
 	} else {
-		int flags = nt > 3 ? (int)L(t[3]) : 0; int rc = json_object_to_file_ext(path, H[0], flags); struct json_object *o = json_object_from_file(path);
+		int flags = nt > 3 ? (int)L(t[3]) : 0; long prefill = nt > 4 ? L(t[4]) : 0; int plain = nt > 5 ? (int)L(t[5]) : 0; int rc; struct json_object *o;
+		int raw_eq = -1; long fsize = -1; size_t wlen = 0; const char *want;
+		if (prefill > 0) {  /* the path already holds an older, longer file (the harness's own open/write are not intercepted) */
+			int fd = open(path, O_WRONLY | O_CREAT | O_TRUNC, 0644); char blk[512]; long left = prefill; memset(blk, 'Z', sizeof blk);
+			while (fd >= 0 && left > 0) { ssize_t w = write(fd, blk, left > 512 ? 512 : (size_t)left); if (w <= 0) break; left -= w; }
+			if (fd >= 0) close(fd);
+			o0 = vf_open_calls; c0 = vf_close_calls;
+		}
+		rc = plain ? json_object_to_file(path, H[0]) : json_object_to_file_ext(path, H[0], flags);
+		{ /* what is in the file now, byte for byte, against the serialization */
+			int fd = open(path, O_RDONLY); struct obuf got = {0}; char blk[4096]; ssize_t r;
+			want = json_object_to_json_string_length(H[0], plain ? JSON_C_TO_STRING_PLAIN : flags, &wlen);
+			if (fd >= 0) { while ((r = read(fd, blk, sizeof blk)) > 0) { ob_need(&got, (size_t)r); memcpy(got.b + got.n, blk, (size_t)r); got.n += (size_t)r; } close(fd); fsize = (long)got.n; raw_eq = want && got.n == wlen && !memcmp(got.b ? got.b : "", want, wlen); }
+			free(got.b);
+		}
+		o = json_object_from_file(path);
 		le = json_util_get_last_err();
-		ob_printf(&out, "= rc=%d obj=%d eq=%d lasterr=%d opens=%ld closes=%ld", rc, o != NULL, json_object_equal(o, H[0]), le != NULL, vf_open_calls - o0, vf_close_calls - c0);
+		ob_printf(&out, "= rc=%d obj=%d eq=%d lasterr=%d opens=%ld closes=%ld raw_eq=%d fsize=%ld want=%zu", rc, o != NULL, json_object_equal(o, H[0]), le != NULL, vf_open_calls - o0, vf_close_calls - c0, raw_eq, fsize, wlen);
 		json_object_put(o); unlink(path);
 	}
 	free(path);
@@ -788,6 +843,22 @@ static void cmd_sstrz(int nt, char **t)
 	e[n] = 0; r = json_object_set_string(H[h], e); free(e); free(x);
 	ob_printf(&out, "= %d", r);
 }
+/* SSTRP <h> <len> <seed>   json_object_set_string_len with <len> pattern bytes ((seed + 7i) & 0xff), from an exact-size block (big strings without big scripts) */
+static void cmd_sstrp(int nt, char **t)
+{
+	int h = hidx(t[1]); size_t n = (size_t)LL(t[2]), i; unsigned sd = (unsigned)L(t[3]); unsigned char *e = (unsigned char *)malloc(n ? n : 1); int r;
+	(void)nt;
+	for (i = 0; i < n; i++) e[i] = (unsigned char)((sd + i * 7) & 0xFF);
+	r = json_object_set_string_len(H[h], (char *)e, (int)n);
+	free(e);
+	ob_printf(&out, "= %d", r);
+}
+/* GSTRC <h> -> = <len> <crc32 of bytes[0..len)> term=<byte at len> strlen=<strlen of get_string> */
+static void cmd_gstrc(int nt, char **t)
+{
+	struct json_object *o = H[hidx(t[1])]; int n = json_object_get_string_len(o); const char *p = json_object_get_string(o); (void)nt;
+	ob_printf(&out, "= %d %u term=%d", n, crc32_buf((const unsigned char *)p, (size_t)n), (int)(unsigned char)p[n]);
+}
 /* GSTR <h> -> = <len> <hex bytes[0..len)> term=<byte at len> */
 static void cmd_gstr(int nt, char **t)
 {
@@ -855,6 +926,8 @@ static void dispatch(int nt, char **t)
 	const char *c = t[0];
 	if (!strcmp(c, "P")) cmd_parse(nt, t);
 	else if (!strcmp(c, "PD")) cmd_parse_depth(nt, t);
+	else if (!strcmp(c, "PM")) cmd_parse_many(nt, t);
+	else if (!strcmp(c, "PV")) cmd_parse_verbose(nt, t);
 	else if (!strcmp(c, "TN")) cmd_toknew(nt, t);
 	else if (!strcmp(c, "B")) cmd_build(nt, t);
 	else if (!strcmp(c, "D")) cmd_dump(nt, t);
@@ -864,6 +937,8 @@ static void dispatch(int nt, char **t)
 	else if (!strcmp(c, "UD")) cmd_ud(nt, t);
 	else if (!strcmp(c, "SS")) cmd_ss(nt, t);
 	else if (!strcmp(c, "GET")) cmd_get(nt, t);
+	else if (!strcmp(c, "GETN")) cmd_getn(nt, t);
+	else if (!strcmp(c, "PUTN")) cmd_putn(nt, t);
 	else if (!strcmp(c, "ALIAS")) cmd_alias(nt, t);
 	else if (!strcmp(c, "OADD")) cmd_oadd(nt, t);
 	else if (!strcmp(c, "ODEL")) cmd_odel(nt, t);
@@ -901,6 +976,8 @@ static void dispatch(int nt, char **t)
 	else if (!strcmp(c, "SSTR")) cmd_sstr(nt, t);
 	else if (!strcmp(c, "SSTRZ")) cmd_sstrz(nt, t);
 	else if (!strcmp(c, "GSTR")) cmd_gstr(nt, t);
+	else if (!strcmp(c, "SSTRP")) cmd_sstrp(nt, t);
+	else if (!strcmp(c, "GSTRC")) cmd_gstrc(nt, t);
 	else if (!strcmp(c, "FAILNEXT")) cmd_failnext(nt, t);
 	else if (!strcmp(c, "EQ")) cmd_eq(nt, t);
 	else if (!strcmp(c, "DCOPY")) cmd_dcopy(nt, t);
